@@ -1028,7 +1028,13 @@ def audit_closures(d, sf, lo, hi, ed, fname, entry, r3b=False):
     cls = find_closures(sf, lo, hi)
     annotated = set()
     for n in d.closures:
-        if isinstance(n, str):
+        if isinstance(n, str) and n.startswith("~*"):
+            snip = norm(n[2:])
+            cands = [c for c in cls if snip in norm_tokens(toks[c[0]:c[3]])]
+            for c in cands:
+                if not any(o is not c and c[0] <= o[0] and o[3] <= c[3] for o in cands):
+                    annotated.add(c[0])
+        elif isinstance(n, str):
             snip = norm(n[1:])
             cands = [c for c in cls if snip in norm_tokens(toks[c[0]:c[3]])]
             if cands:
@@ -1117,20 +1123,30 @@ def weave_closures(d, sf, lo, hi, ed, rule_hits):
     """closure annotations (by ordinal or by text anchor) inside the token range [lo, hi)"""
     toks = sf.toks
     cls = find_closures(sf, lo, hi)
+    targets = []
     for n, spec in d.closures.items():
-        if isinstance(n, str):
+        if isinstance(n, str) and n.startswith("~*"):
+            # `closure ~*<snippet> ## ..`: every innermost closure whose text contains the snippet (several identical closures)
+            snip = norm(n[2:])
+            cands = [c for c in cls if snip in norm_tokens(toks[c[0]:c[3]])]
+            inner_most = [c for c in cands if not any(o is not c and c[0] <= o[0] and o[3] <= c[3] for o in cands)]
+            if not inner_most:
+                rule_hits["closure-missing"] = rule_hits.get("closure-missing", 0) + 1
+            targets.extend((spec, c) for c in inner_most)
+        elif isinstance(n, str):
             snip = norm(n[1:])
             cands = [c for c in cls if snip in norm_tokens(toks[c[0]:c[3]])]
             if not cands:
                 rule_hits["closure-missing"] = rule_hits.get("closure-missing", 0) + 1
                 continue
-            p0, p1, body, bend, block = min(cands, key=lambda c: c[3] - c[0])
+            targets.append((spec, min(cands, key=lambda c: c[3] - c[0])))
         elif n < 1 or n > len(cls):
             # the annotated closure is gone: verify without its annotation (the body decides)
             rule_hits["closure%d-missing" % n] = 1
             continue
         else:
-            p0, p1, body, bend, block = cls[n - 1]
+            targets.append((spec, cls[n - 1]))
+    for spec, (p0, p1, body, bend, block) in targets:
         cind = indent_of(sf, p0)
         if spec.get("sig"):
             ed.replace(p0, p1 + 1, [Piece(spec["sig"])])
